@@ -66,9 +66,10 @@ def step (s : St) (ts : List String) : St × List String :=
                         llgr := b! llgr, ltuples := parsePairs (nat! nl) rest2, mp := mp, noFwd := noFwd }
       ({ s with p := GR.step s.p (.est c) }, [])
     | _ => (s, ["bad-op"])
-  | ["loss", k, c, sc] =>
+  | ["loss", k, c, sc, d] =>
+    -- `d`: virtual seconds the real established() needs to notice this kind of loss (session still up)
     match lossOf (nat! k) (nat! c) (nat! sc) with
-    | some l => ({ s with p := GR.step s.p (.loss l) }, [])
+    | some l => ({ s with p := GR.step (GR.step s.p (.tick (nat! d))) (.loss l) }, [])
     | none => (s, ["bad-op"])
   | ["goto", n, ad] =>
     match nextOf (nat! n) with
